@@ -5,6 +5,8 @@
 #include <algorithm>
 #include <stdexcept>
 
+extern "C" char __executable_start;
+
 namespace model {
 using sim::SutScope;
 using sim::HarnessScope;
@@ -759,7 +761,7 @@ uint64_t World::graph_digest()
    auto ord = [&](Ref r) -> uint64_t {
       if (r == nullptr) return 0;
       if (r == ABSENT) return 1;
-      if (not sim::heap::in_arena(r)) return 0x5747000000000000ull ^ uint64_t(reinterpret_cast<uintptr_t>(r));   // static: same in every Lexicon
+      if (sim::heap::is_static(r)) return 0x5747000000000000ull ^ uint64_t(reinterpret_cast<uintptr_t>(r) - reinterpret_cast<uintptr_t>(&__executable_start));   // static: same in every Lexicon
       auto it = ordinal.find(r);
       if (it != ordinal.end()) return it->second;
       uint64_t k = 100 + ordinal.size();
@@ -850,6 +852,8 @@ Ref World::apply(const Op& op)
    const int code = ((op.code % OP_COUNT) + OP_COUNT) % OP_COUNT;
    current_op = code;
    ++op_counts[size_t(code)];
+   if (step_codes.size() <= step) step_codes.resize(step + 1, -1);
+   step_codes[step] = code;
    Ref r = nullptr;
    last_op_faulted = false;
    touching = nullptr;
